@@ -91,7 +91,7 @@ def mutate(rec):
                 return rec
         return None
     cand = [k for k in range(len(s['d'])) if not s['m'][k] and s['d'][k] not in ('nan', 'inf', '-inf') and Fraction(s['d'][k]) != 0]
-    if cand and rec['op'] != 'arith_maskonly':
+    if cand and not (rec['op'] == 'arith' and not rec['in'].get('values', True)):
         k = cand[len(cand) // 2]
         s['d'][k] = rat(Fraction(s['d'][k]) * Fraction(1000001, 1000000))
         return rec
